@@ -349,6 +349,21 @@ fn public_ops(o: &mut Out) {
         o.line("sign.own-output-verifies", format!("{rt:?}"));
         o.corpus("tok.public", || own.ok());
     }
+    if VER % 2 == 0 {
+        // the identity point as public key and as R, S = 0: satisfies the (cofactorless) verification equation
+        // for every message; a build that verifies more strictly than another shows here
+        let mut ident = [0u8; 32];
+        ident[0] = 1;
+        let line = match <paseto_core::PublicKey<V>>::try_from(KeyText::<V, Public>::from_raw_bytes(&ident)) {
+            Ok(ipk) => {
+                let body = [MSG, &ident[..], &[0u8; 32][..]].concat();
+                let tok = format!("v{VER}.public.{}", b64_encode(&body));
+                show(tok.parse::<SignedToken<V, Raw, Vec<u8>>>().and_then(|t| t.verify(&ipk, &nv)).map(|u| u.claims.0))
+            }
+            Err(e) => format!("key-rejected({})", kind(&e)),
+        };
+        o.line("verify.identity-key-and-r", line);
+    }
     if let Some(tok) = o.corpus("tok.public", || None) {
         let r = tok.parse::<SignedToken<V, Raw, Vec<u8>>>().and_then(|t| t.verify(&pk, &nv)).map(|u| [u.claims.0, u.footer].concat());
         o.line("verify.tok.public", show(r));
